@@ -266,17 +266,17 @@ theorem from_vector_ok (hk : SvdKernel k) (htol : 0 ≤ tol) (htol1 : tol < 1) {
   fromVector_ok hk htol htol1 hd hn hvl hne
 
 /-- **8b.** (after the repair of F12) `MPS.from_vector` returns for EVERY vector of length `d^nsites` (`d, nsites ≥ 1`)
-and every tolerance: also for the zero vector -- all singular values are then discarded by the rule and the code keeps a
-dummy bond of dimension one -- and for `tol ≥ 1`. -/
-theorem from_vector_total (hk : SvdKernel k) {d n : Nat} (hd : 0 < d) (hn : 0 < n) {v : List 𝕜}
-    (hvl : v.length = d ^ n) : ∃ ψ, MPS.fromVector k d n v tol = .ok ψ :=
-  fromVector_total hk hd hn hvl
+and every tolerance `0 ≤ tol < 1`: also for the zero vector -- every singular value is then zero and the code keeps a dummy bond
+of dimension one. -/
+theorem from_vector_total (hk : SvdKernel k) (htol : 0 ≤ tol) (htol1 : tol < 1) {d n : Nat} (hd : 0 < d) (hn : 0 < n)
+    {v : List 𝕜} (hvl : v.length = d ^ n) : ∃ ψ, MPS.fromVector k d n v tol = .ok ψ :=
+  fromVector_total hk htol htol1 hd hn hvl
 
 /-- **8c.** zero tolerance, every vector (zero vector included): the call returns and reproduces the vector exactly. -/
 theorem from_vector_tol0_total (hk : SvdKernel k) {d n : Nat} (hd : 0 < d) (hn : 0 < n) {v : List 𝕜}
     (hvl : v.length = d ^ n) :
     ∃ ψ, MPS.fromVector k d n v (0 : ℝ) = .ok ψ ∧ ∀ s ∈ digitsU d n, ψ.amp s = v.getD (flat d s) 0 := by
-  obtain ⟨ψ, h⟩ := fromVector_total (tol := (0 : ℝ)) hk hd hn hvl
+  obtain ⟨ψ, h⟩ := fromVector_total (tol := (0 : ℝ)) hk (le_refl 0) zero_lt_one hd hn hvl
   refine ⟨ψ, h, ?_⟩
   have hb := fromVector_bound hk (le_refl (0 : ℝ)) h
   rw [mul_zero, zero_mul] at hb
